@@ -357,7 +357,9 @@ pub fn check(c: &Case) -> Verdict {
         2 => (vec![0x5a; 4096 + ((h >> 24) % 64) as usize], 4096),
         _ => (vec![], 0),
     };
-    let mut dest = Dest::new(prefill.clone(), p0);
+    // ... and it may accept writes only in pieces (a pipe-backed or quota-limited file, a chunking sink)
+    let piece = if (h >> 28) % 4 == 0 { Some(1 + ((h >> 32) % 6000) as usize) } else { None };
+    let mut dest = Dest::new(prefill.clone(), p0).with_max_write(piece);
     let out = run_dump(&mut w, &mut dest);
     let img = match out {
         DumpOutcome::Ok(v) => {
@@ -406,6 +408,9 @@ pub fn check(c: &Case) -> Verdict {
     }
     if p0 != 0 {
         classes.push("destination-positioned-behind-existing-content".into());
+    }
+    if piece.is_some() {
+        classes.push("destination-accepts-writes-in-pieces".into());
     }
     let nt = (c.threads.len() >= 2 && named > 0 && unnamed > 0) || n_opts >= 3 || !opts.user_mappings.is_empty() || !opts.app_memory.is_empty();
     Verdict::pass_c(if nt { Some(fp_json(c)) } else { None }, classes)
@@ -541,7 +546,7 @@ pub fn run(ctx: &mut LaneCtx) {
         SubSpec {
             name: "live-structure",
             cases: (1_600, 60_000),
-            rule: "generated target processes (main + 0..63 threads: parked/spinner/sleeper/null-sp, names unset/UTF-8/non-UTF-8, custom stacks with sp in stack/guard/hole) x extra mappings x 0..40 open descriptors x writer options (crash context with boundary rip/rsp, size limit none/tiny/threshold+-1/huge, sanitize, skip-unreferenced, app memory, user mappings, direct auxv); the destination is empty or positioned behind 1 / 100 / 4096 bytes of existing content, and the image found there is the one judged; successful images are decoded strictly (18 entries, exact stream sizes, all RVAs, no overlap); non-trivial = dump succeeded and (mixed named/unnamed threads, or >=3 options, or user mappings/app memory); distinct = hash of case",
+            rule: "generated target processes (main + 0..63 threads: parked/spinner/sleeper/null-sp, names unset/UTF-8/non-UTF-8, custom stacks with sp in stack/guard/hole) x extra mappings x 0..40 open descriptors x writer options (crash context with boundary rip/rsp, size limit none/tiny/threshold+-1/huge, sanitize, skip-unreferenced, app memory, user mappings, direct auxv); the destination is empty or positioned behind 1 / 100 / 4096 bytes of existing content, a quarter of the destinations accept at most 1..6000 bytes per write call, and the image found at the destination is the one judged; successful images are decoded strictly (18 entries, exact stream sizes, all RVAs, no overlap); non-trivial = dump succeeded and (mixed named/unnamed threads, or >=3 options, or user mappings/app memory); distinct = hash of case",
             strategy: case_strategy(if ctx.tier == Tier::Quick { 24 } else { 64 }).boxed(),
             max_shrink_iters: 200,
             log_current: true,
